@@ -1077,8 +1077,9 @@ impl<'i> Machine<'i> {
             }
             // `rock roll x …` / `roll roll x`: rrss writes through to x; the properties do not say
             Primary::Pop(_) => Err(Stop::Unspecified("write through a roll expression")),
-            // rrss visits name and arguments of the call as write targets before failing
-            Primary::Call(..) => Err(Stop::Unspecified("write to a call expression")),
+            // The result of a call is not a place: a runtime error. (rrss applies the write to the callee's name and to
+            // the arguments before it fails; the program stops there, so nothing can observe that.)
+            Primary::Call(..) => err("value not writable"),
             Primary::Lit(_) => err("value not writable"),
         }
     }
